@@ -94,7 +94,7 @@ def build(case):
     o = case.get("sz", {})
     members = [sevenz.Member(name.rstrip("/") if is_dir else name, None if is_dir else data, is_dir) for name, data, is_dir in ents]
     return sevenz.write_7z(members, method=o.get("method", "copy"), layout=o.get("layout", "solid"), encode_header=o.get("encode_header", False),
-                           with_attributes=o.get("attrs", True), crc=o.get("crc", True))
+                           with_attributes=o.get("attrs", True), crc=o.get("crc", True), dict_size=o.get("dict"))
 
 
 def _is_nested_archive(base):
@@ -168,6 +168,8 @@ def features(case):
         f.add("member.macosx")
     if any(e["k"] == "raw" and _is_nested_archive(e["name"]) for e in ents):
         f.add("member.nested-archive")
+    if len({e["name"] for e in ents}) < len(ents):
+        f.add("name.duplicate")
     if any(any(ord(c) > 127 for c in e["name"]) for e in ents):
         f.add("name.unicode")
     if any(any(ord(c) > 0xFFFF for c in e["name"]) for e in ents):
@@ -198,6 +200,12 @@ def neutralise(case, feature):
         c["entries"] = [e for e in c["entries"] if e["k"] != "dir"]
     elif feature == "member.empty-file":
         c["entries"] = [e for e in c["entries"] if not (e["k"] == "raw" and e["hex"] == "")]
+    elif feature == "name.duplicate":
+        seen = set()
+        for i, e in enumerate(c["entries"]):
+            if e["name"] in seen:
+                e["name"] = (e["name"].rsplit(".", 1)[0] + f"-again{i}." + e["name"].rsplit(".", 1)[1]) if "." in e["name"].rsplit("/", 1)[-1] else e["name"] + f"-again{i}"
+            seen.add(e["name"])
     elif feature in ("name.unicode", "name.astral"):
         for i, e in enumerate(c["entries"]):
             e["name"] = "".join(ch if ord(ch) < 128 else "u" for ch in e["name"])
@@ -229,7 +237,7 @@ def validate(case):
     assert case["kind"] != "tar" or case["entries"]
     names = set()
     for e in case["entries"]:
-        assert e["k"] in ("dir", "doc", "raw") and e["name"] and e["name"] not in names and "\x00" not in e["name"] and not e["name"].startswith("/") and ".." not in e["name"].split("/")
+        assert e["k"] in ("dir", "doc", "raw") and e["name"] and (e["name"] not in names or e["k"] == "doc") and "\x00" not in e["name"] and not e["name"].startswith("/") and ".." not in e["name"].split("/")
         names.add(e["name"])
         if e["k"] == "doc":
             assert e["fmt"] in MEMBER_FORMATS and isinstance(e["seed"], int) and e["name"].endswith("." + e["fmt"]) and e.get("corrupt") in (None, "truncate", "garbage")
@@ -282,12 +290,29 @@ def cases(draw, kind=None):
         else:
             entries.append({"k": "raw", "name": uniq(f"{d}blob{i}." + draw(st.sampled_from(["bin", "exe", "png", "xyz"]))), "hex": b"\x00\x01unsupported ZX0BLOB".hex()})
     docs = [e for e in entries if e["k"] == "doc"]
+    if docs and draw(st.integers(0, 3)) == 0:
+        # an updated archive (tar -r / zip -u style): a later entry carries the name of an earlier one, with other content; both are listed, both are members
+        first = draw(st.sampled_from(docs))
+        entries.append({"k": "doc", "name": first["name"], "fmt": first["fmt"], "seed": first["seed"] + 7})
+        docs = [e for e in entries if e["k"] == "doc"]
     if docs and draw(st.integers(0, 2)) == 0:
         draw(st.sampled_from(docs))["corrupt"] = draw(st.sampled_from(["truncate", "garbage"]))
     case = {"kind": kind, "entries": entries}
+    far = kind == "7z" and draw(st.integers(0, 4)) == 0
+    if far:
+        # a passage repeated about 5 KiB later in a solid folder: the decoder needs the whole dictionary the coder property declares (6 or 12 KiB: the 3 * 2^n sizes)
+        import hashlib
+        filler = hashlib.shake_128(b"vf-filler").digest(5000)
+        entries.append({"k": "doc", "name": uniq("far/first.txt"), "fmt": "txt", "seed": seed0 + 91})
+        entries.append({"k": "raw", "name": uniq("far/filler.bin"), "hex": filler.hex()})
+        entries.append({"k": "doc", "name": uniq("far/second.txt"), "fmt": "txt", "seed": seed0 + 91})
     if kind == "7z":
         case["sz"] = {"method": draw(st.sampled_from(["copy", "lzma", "lzma2"])), "layout": draw(st.sampled_from(["solid", "solid", "per-file", "mixed"])),
                       "encode_header": draw(st.booleans()), "attrs": draw(st.sampled_from([True, True, False])), "crc": draw(st.booleans())}
+        if far:
+            case["sz"].update({"method": "lzma2", "layout": "solid", "dict": draw(st.sampled_from([6144, 12288, 8192]))})
+        elif draw(st.integers(0, 3)) == 0:
+            case["sz"]["dict"] = draw(st.sampled_from([4096, 6144, 12288, 1 << 16, 3 << 16]))
     if kind.startswith("tar"):
         case["pax"] = draw(st.booleans())
     return case
